@@ -245,6 +245,8 @@ type summary struct {
 	escapes map[origin]bool
 	// parameters (-1 = receiver) whose own value (a reference) may be returned as such
 	retParams map[int]bool
+	// the same two, per result position of a multi-value return (nil when never recorded)
+	perResult map[int]*summary
 }
 
 // ---------- the per-function walker ----------
@@ -258,6 +260,10 @@ type ctx struct {
 	// function-typed parameters bound to a closure of the caller (index -> term of the closure body,
 	// produced in the CALLER's context): q.withLock(func() { ... })
 	fnArgs map[int]func() string
+	// the statement being translated is a direct child of the function body (runs unconditionally)
+	topLevel bool
+	// a, b := f(): while the i-th left-hand side is assigned, the i-th result of f is meant (-1: any)
+	wantResult int
 	// structural translation state (only for locking functions)
 	structural bool
 	defers     []string // Coq terms of deferred actions, in push order
@@ -385,8 +391,15 @@ func (c *ctx) origins(e ast.Expr) oset {
 				return res
 			}
 		}
-		if callee != nil && !c.w.locking[callee] {
+		if callee != nil {
 			if sm := c.w.summ[callee]; sm != nil {
+				if c.wantResult >= 0 && sm.perResult != nil {
+					if pr := sm.perResult[c.wantResult]; pr != nil {
+						sm = pr
+					} else {
+						return res // this result position never carries a reference into a parameter
+					}
+				}
 				// the callee's own return statements say what its result may point into: parameters
 				// handed back as such (retParams) and fields of parameters (escapes)
 				actual := func(p int) oset {
@@ -1059,7 +1072,71 @@ func (c *ctx) assignTo(lhs ast.Expr, rhs ast.Expr, define bool) string {
 		}
 		return "SSkip"
 	}
-	return seq([]string{c.lvalueSub(lhs), c.access(c.addrOrigins(lhs), true)})
+	ao := c.addrOrigins(lhs)
+	if rhs != nil && c.topLevel {
+		c.transfer(ao, rhs)
+	}
+	return seq([]string{c.lvalueSub(lhs), c.access(ao, true)})
+}
+
+// transfer: ownership idioms around an unconditional (top-level) assignment `inst.f = rhs`.
+//   d := h.data; h.data = nil      the array d points to is no longer reachable from h: d is private
+//                                  from here on (another thread can only hold a reference that escaped
+//                                  earlier, and every escape is reported on its own)
+//   h.data = d                     the memory d points to is guarded data from here on
+func (c *ctx) transfer(ao oset, rhs ast.Expr) {
+	if len(ao) != 1 {
+		return
+	}
+	var target origin
+	for o := range ao {
+		target = o
+	}
+	g, ok := c.inst[target.param]
+	if !ok || target.field == nil || g.loc(target.field) < 0 || !refLike(target.field.Type()) {
+		return
+	}
+	ro := c.origins(rhs)
+	if len(ro) == 0 {
+		// detach
+		for v, os := range c.locals {
+			if os[target] {
+				n := oset{}
+				for o := range os {
+					if o != target {
+						n[o] = true
+					}
+				}
+				c.locals[v] = n
+			}
+		}
+		return
+	}
+	// attach the local the right-hand side is built from
+	e := ast.Unparen(rhs)
+	for {
+		switch x := e.(type) {
+		case *ast.SliceExpr:
+			e = ast.Unparen(x.X)
+			continue
+		case *ast.CallExpr:
+			if id, ok := x.Fun.(*ast.Ident); ok && id.Name == "append" && len(x.Args) > 0 {
+				e = ast.Unparen(x.Args[0])
+				continue
+			}
+		}
+		break
+	}
+	if id, ok := e.(*ast.Ident); ok {
+		if v, ok := c.info().ObjectOf(id).(*types.Var); ok {
+			if _, isParam := c.params[v]; !isParam && refLike(v.Type()) {
+				if c.locals[v] == nil {
+					c.locals[v] = oset{}
+				}
+				c.locals[v][target] = true
+			}
+		}
+	}
 }
 
 func (c *ctx) stmt(s ast.Stmt) string {
@@ -1070,6 +1147,15 @@ func (c *ctx) stmt(s ast.Stmt) string {
 		return c.expr(x.X)
 	case *ast.AssignStmt:
 		var ps []string
+		c.topLevel = false
+		if c.fd != nil && c.fd.decl.Body != nil {
+			for _, ts := range c.fd.decl.Body.List {
+				if ts == s {
+					c.topLevel = true
+				}
+			}
+		}
+		defer func() { c.topLevel = false }()
 		for _, r := range x.Rhs {
 			ps = append(ps, c.expr(r))
 		}
@@ -1086,7 +1172,11 @@ func (c *ctx) stmt(s ast.Stmt) string {
 			} else if len(x.Rhs) == 1 {
 				r = x.Rhs[0]
 			}
+			if len(x.Rhs) == 1 && len(x.Lhs) > 1 {
+				c.wantResult = i
+			}
 			ps = append(ps, c.assignTo(l, r, x.Tok == token.DEFINE))
+			c.wantResult = -1
 		}
 		return seq(ps)
 	case *ast.IncDecStmt:
@@ -1509,7 +1599,7 @@ func (c *ctx) function() string {
 
 func (w *world) newCtx(fd *funcDecl) *ctx {
 	c := &ctx{w: w, fd: fd, params: map[*types.Var]int{}, inst: map[int]*gtype{}, locals: map[*types.Var]oset{},
-		effs: map[effect]bool{}}
+		effs: map[effect]bool{}, wantResult: -1}
 	sig := fd.obj.Type().(*types.Signature)
 	if sig.Recv() != nil {
 		// the receiver object in Defs
@@ -1775,30 +1865,21 @@ func (w *world) summarise() {
 			}
 			// references this function returns into (fields of) its parameters: a locking method that
 			// returns the result of such a helper hands them on to ITS caller
-			ast.Inspect(fd.decl.Body, func(n ast.Node) bool {
-				switch x := n.(type) {
-				case *ast.FuncLit:
-					return false
-				case *ast.ReturnStmt:
-					for _, r := range x.Results {
-						t := c.typeOf(r)
-						if t == nil || !refLike(t) || w.deepImmutable(t, 0) {
-							continue
-						}
-						for o := range c.origins(r) {
-							if o.field != nil && !s.escapes[o] {
-								s.escapes[o] = true
-								changed = true
-							}
-							if o.field == nil && !s.retParams[o.param] {
-								s.retParams[o.param] = true
-								changed = true
-							}
-						}
-					}
-				}
-				return true
-			})
+			if w.collectReturns(fd, c, s) {
+				changed = true
+			}
+		}
+		// locking functions are inlined where they are called, but what their RESULTS may point into
+		// is needed by callers that keep using them (comp, items := h.detach())
+		for fn, fd := range w.funcs {
+			if !w.locking[fn] {
+				continue
+			}
+			c := w.newCtx(fd)
+			c.function()
+			if w.collectReturns(fd, c, w.summ[fn]) {
+				changed = true
+			}
 		}
 		// fields written through summaries: x.f.M() where M writes its receiver
 		for _, pi := range w.pkgs {
@@ -1872,6 +1953,50 @@ func (w *world) summarise() {
 			break
 		}
 	}
+}
+
+// collectReturns records in s what the references returned by fd may point into (c has just walked
+// the body, so the locals carry their origins at the END of the body: a local detached by
+// `x := h.f; h.f = nil` is private).  Reports whether s grew.
+func (w *world) collectReturns(fd *funcDecl, c *ctx, s *summary) bool {
+	changed := false
+	record := func(t *summary, o origin) {
+		if o.field != nil && !t.escapes[o] {
+			t.escapes[o] = true
+			changed = true
+		}
+		if o.field == nil && !t.retParams[o.param] {
+			t.retParams[o.param] = true
+			changed = true
+		}
+	}
+	ast.Inspect(fd.decl.Body, func(n ast.Node) bool {
+		switch x := n.(type) {
+		case *ast.FuncLit:
+			return false
+		case *ast.ReturnStmt:
+			for i, r := range x.Results {
+				t := c.typeOf(r)
+				if t == nil || (!refLike(t) && !isTuple(t)) || w.deepImmutable(t, 0) {
+					continue
+				}
+				for o := range c.origins(r) {
+					record(s, o)
+					if len(x.Results) > 1 {
+						if s.perResult == nil {
+							s.perResult = map[int]*summary{}
+						}
+						if s.perResult[i] == nil {
+							s.perResult[i] = &summary{escapes: map[origin]bool{}, retParams: map[int]bool{}}
+						}
+						record(s.perResult[i], o)
+					}
+				}
+			}
+		}
+		return true
+	})
+	return changed
 }
 
 func (w *world) returnsFresh(fd *funcDecl, c *ctx) bool {
